@@ -2890,13 +2890,22 @@ pub fn run(args: &Args) {
                 // every datagram key used by some device, every device key present (the documented contract);
                 // now and then a device without key
                 let nt = tuples.len();
-                let mut keys: Vec<i32> = (0..cx.n).map(|i| if i < nt { i as i32 } else { g.r.below(nt as u64) as i32 }).collect();
-                if cx.n > nt && g.r.chance(1, 3) {
-                    // a device without key (its key stays in use elsewhere: indices below `nt` keep theirs)
-                    keys[cx.n - 1] = -1;
-                }
                 if nt > cx.n {
                     continue;
+                }
+                // devices without key (negative entry) at ANY position — below, between and above keyed devices —,
+                // keys in any order; every datagram key is then given to a distinct random device
+                let mut keys: Vec<i32> = (0..cx.n).map(|_| if g.r.chance(1, 3) { -1 - g.r.below(3) as i32 } else { g.r.below(nt as u64) as i32 }).collect();
+                let mut pos: Vec<usize> = (0..cx.n).collect();
+                for i in (1..pos.len()).rev() {
+                    let j = g.r.below(i as u64 + 1) as usize;
+                    pos.swap(i, j);
+                }
+                for (k, p) in pos.iter().take(nt).enumerate() {
+                    keys[*p] = k as i32;
+                }
+                if keys.iter().any(|k| *k < 0) {
+                    cx.out.count("group-send:device-without-key");
                 }
                 let so = if g.r.chance(1, 2) { Some(g.sopt()) } else { None };
                 cx.gsrv(&keys, &tuples, so.as_ref(), true);
